@@ -297,6 +297,120 @@ func init() {
 					"depth_requested": cfg.depth, "depth_completed": r.depthDone, "states": r.states, "transitions": r.transitions,
 					"new_states_per_level": r.levelStates, "distinct_aliasing_patterns": r.aliasPatterns})
 			}
+			// long linear histories on long buffers, every step checked, no deduplication (hidden counters or
+			// caches inside the implementation are not part of the model key)
+			var longSteps int64
+			for _, t := range []int{dyn.Int8, dyn.Uint32, dyn.Float64} {
+				for C := 1; C <= 3; C++ {
+					for variant := 0; variant < 4; variant++ {
+						cs := c12Case{T: tn(t), C: C}
+						w := newWorld(t, C)
+						ok := true
+						step := func(o wop) {
+							if !ok || !w.enabled(o) {
+								return
+							}
+							if o.K == "append" && w.views[o.V].m.n+w.views[o.W].m.n > 3000 {
+								return // keep the buffers bounded (self-append doubles)
+							}
+							cs.Ops = append(cs.Ops, o)
+							longSteps++
+							if fs := w.apply(o, true); len(fs) > 0 {
+								for k := range fs {
+									fs[k].Msg = fmt.Sprintf("[%s C=%d] long history of %d steps ending in %v :: %s", cs.T, cs.C, len(cs.Ops), cs.Ops[max0(len(cs.Ops)-6):], fs[k].Msg)
+								}
+								c.Fail(cs, fs...)
+								ok = false
+							}
+						}
+						K := []int{64, 200, 33, 500}[variant]
+						step(wop{K: "alloc", V: 0, A: 0, B: K})
+						step(wop{K: "alloc", V: 1, A: 3, B: 3})
+						step(wop{K: "stamp", V: 1})
+						for i := 0; i < 400 && ok; i++ {
+							nv := len(w.views)
+							v := i % nv
+							m := w.views[v].m
+							switch (i + variant) % 9 {
+							case 0, 1, 2:
+								step(wop{K: "asample", V: 0})
+							case 3:
+								step(wop{K: "append", V: 0, W: 1})
+							case 4:
+								if m.n > 0 {
+									step(wop{K: "stamp", V: v})
+								}
+							case 5:
+								if m.n > 0 {
+									step(wop{K: "set", V: v, A: (i * 13) % m.n})
+								}
+							case 6:
+								if nv < 7 {
+									cp := m.capacity()
+									step(wop{K: "slice", V: v, A: cp / 3, B: cp - cp/4})
+								}
+							case 7:
+								step(wop{K: "append", V: v, W: (i / 9) % nv})
+							case 8:
+								if w.views[0].m.n%C == 0 {
+									step(wop{K: "append", V: 0, W: 0})
+								}
+							}
+						}
+					}
+				}
+			}
+			// directed histories on large storages: growth while other views survive on the old storage,
+			// another buffer growing afterwards (recycled blocks), self-appends, windows at the tail of a
+			// large parent written through both sides
+			for _, t := range []int{dyn.Int8, dyn.Float64, dyn.Int32} {
+				for C := 1; C <= 3; C++ {
+					for _, S := range []int{24, 400, 1100, 4200, 9000} { // frames
+						cs := c12Case{T: tn(t), C: C}
+						w := newWorld(t, C)
+						ok := true
+						step := func(o wop) {
+							if !ok || !w.enabled(o) {
+								return
+							}
+							cs.Ops = append(cs.Ops, o)
+							longSteps++
+							if fs := w.apply(o, true); len(fs) > 0 {
+								for k := range fs {
+									fs[k].Msg = fmt.Sprintf("[%s C=%d] large-storage history %v :: %s", cs.T, cs.C, cs.Ops, fs[k].Msg)
+								}
+								c.Fail(cs, fs...)
+								ok = false
+							}
+						}
+						step(wop{K: "alloc", V: 0, A: S, B: S})           // v0: a, full
+						step(wop{K: "stamp", V: 0})
+						step(wop{K: "slice", V: 0, A: 0, B: S / 2})       // v1: first half of a
+						step(wop{K: "slice", V: 0, A: S - S/10, B: S})    // v2: short window at the tail of a
+						step(wop{K: "set", V: 0, A: C*S - 1})             // write through the parent inside v2
+						step(wop{K: "set", V: 2, A: 0})                   // and through the window
+						step(wop{K: "alloc", V: 3, A: 1, B: 1})           // v3: one frame
+						step(wop{K: "stamp", V: 3})
+						step(wop{K: "append", V: 0, W: 3})                // a grows; v1, v2 stay on the old storage
+						step(wop{K: "stamp", V: 1})
+						step(wop{K: "alloc", V: 4, A: S / 2, B: S / 2})   // v4: b
+						step(wop{K: "stamp", V: 4})
+						step(wop{K: "append", V: 4, W: 1})                // b grows to S frames
+						step(wop{K: "stamp", V: 4})
+						step(wop{K: "stamp", V: 1})
+						step(wop{K: "stamp", V: 0})
+						step(wop{K: "alloc", V: 5, A: S / 4, B: S / 4})   // v5: c
+						step(wop{K: "append", V: 5, W: 5})                // self-append, grows
+						step(wop{K: "append", V: 5, W: 1})
+						step(wop{K: "stamp", V: 5})
+						step(wop{K: "stamp", V: 2})
+						step(wop{K: "slice", V: 4, A: S - 3, B: S})       // tail window of the grown b
+						step(wop{K: "stamp", V: 6})
+						step(wop{K: "set", V: 4, A: C*S - 2})
+					}
+				}
+			}
+			c.Set("long_linear_history_steps", longSteps)
 			// data-independence re-check: the lowest levels again without value canonicalisation
 			q := c12BFS(c, c12Cfg{"recheck-canon", dyn.Int16, 2, 2, 3, 3, true, false})
 			raw := c12BFS(c, c12Cfg{"recheck-raw", dyn.Int16, 2, 2, 3, 3, false, false})
@@ -305,6 +419,7 @@ func init() {
 					c.InternalError("value canonicalisation re-check failed: quotient %d states (failed=%v), raw %d states (failed=%v)", q.states, q.failed, raw.states, raw.failed)
 				}
 			}
+			trans += longSteps
 			c.Set("states", states)
 			c.Set("transitions", trans)
 			c.Set("traces_validated_against_impl", replays)
